@@ -128,6 +128,13 @@ where
         self.initial_cluster_size
     }
 
+    /// Vote collection may be skipped only while this node is the sole voter. A cluster that
+    /// started with one node and has been expanded since (joined learners were promoted) has
+    /// other voters, and this node must win a real majority like any other.
+    async fn is_single_node_cluster(&self) -> bool {
+        self.initial_cluster_size == 1 && self.voters().await.is_empty()
+    }
+
     async fn nodes_with_status(
         &self,
         status: NodeStatus,
